@@ -278,6 +278,39 @@ fn board_chunk(rng: &mut Rng, events: usize, out: &mut dyn Write) {
                             }
                             writeln!(out, "{}", Value::Object(ev)).unwrap();
                             n += 1;
+                            // a knight just set (the pass was refused: it gives check) is taken away again half of the time, and
+                            // the turn is offered once more - the check must be gone with the knight
+                            if man == enemy_knight && b.side_to_move() == stm_c && b.piece_on(s) == Some(Piece::Knight) && b.color_on(s) == Some(!stm_c) && rng.chance(1, 2) {
+                                let mut ev = Map::new();
+                                let res = b.clear_square(s);
+                                ev.insert("event".into(), json!("Edit"));
+                                ev.insert("esq".into(), json!(s.to_index()));
+                                ev.insert("man".into(), json!("."));
+                                ev.insert("ok".into(), json!(res.is_some()));
+                                if let Some(nb) = res {
+                                    b = nb;
+                                }
+                                observe(&b, &mut ev);
+                                writeln!(out, "{}", Value::Object(ev)).unwrap();
+                                n += 1;
+                                let mut ev = Map::new();
+                                ev.insert("event".into(), json!("Null"));
+                                let before = b;
+                                match b.null_move() {
+                                    None => {
+                                        ev.insert("ok".into(), json!(false));
+                                        observe(&b, &mut ev);
+                                    }
+                                    Some(nb) => {
+                                        ev.insert("ok".into(), json!(true));
+                                        ev.insert("src_unchanged".into(), json!(before == b));
+                                        b = nb;
+                                        observe(&b, &mut ev);
+                                    }
+                                }
+                                writeln!(out, "{}", Value::Object(ev)).unwrap();
+                                n += 1;
+                            }
                         }
                         continue;
                     }
@@ -1182,11 +1215,20 @@ fn text_chunk(rng: &mut Rng, events: usize, out: &mut dyn Write) {
             if n >= events {
                 return;
             }
+            // now and then the turn is passed first: the position after a null move is a position like any other (its
+            // derived state was rebuilt by null_move, not by a move maker or the reader)
+            let mut force = false;
+            if rng.chance(1, 8) {
+                if let Some(nb) = b.null_move() {
+                    b = nb;
+                    force = true;
+                }
+            }
             let ms: Vec<ChessMove> = MoveGen::new_legal(&b).collect();
             if ms.is_empty() {
                 break;
             }
-            let castle_or_ep = ms.iter().any(|m| {
+            let castle_or_ep = force || ms.iter().any(|m| {
                 let p = b.piece_on(m.get_source()).unwrap();
                 (p == Piece::King && (m.get_source().get_file().to_index() as i32 - m.get_dest().get_file().to_index() as i32).abs() == 2)
                     || (p == Piece::Pawn && m.get_source().get_file() != m.get_dest().get_file() && b.piece_on(m.get_dest()).is_none())
@@ -1918,9 +1960,15 @@ fn mine_chunk(rng: &mut Rng, events: usize, out: &mut dyn Write) {
     let mut tries: u64 = 0;
     let mut quota = [0usize; 14];
     let mut nullq = 0usize;
+    let mut specq = [0usize; 4];
+    let mut dblq = 0usize;
     let kinds_w = b"PPPNBRQ";
     let kinds_b = b"pppnbrq";
-    while n < events && tries < 40_000_000 {
+    // the common classes fill their quotas within a few thousand tries; the rare ones (a double push or castling that mates)
+    // need millions: keep trying for a fixed budget, the common classes being capped, and let the rare ones overshoot a little
+    let min_tries: u64 = 3_000_000;
+    let hard_cap = events + events / 3;
+    while (n < events || tries < min_tries) && n < hard_cap && tries < 40_000_000 {
         tries += 1;
         let mut sq = [b'.'; 64];
         // kings: one of them often in a corner or on an edge
@@ -2064,6 +2112,55 @@ fn mine_chunk(rng: &mut Rng, events: usize, out: &mut dyn Write) {
             Ok(b) => b,
             Err(_) => continue,
         };
+        // one try in four: a SPECIAL move (double push, en-passant capture, castling, promotion) whose result - judged on the
+        // position built afresh from its text, not on the board the move maker produced - leaves at most one legal move:
+        // mates and stalemates delivered by exactly the moves whose bookkeeping is hand-written in the move makers
+        let sk = (tries / 4) % 4;     // which kind of special move this try looks for (each kind has its own quota)
+        if tries % 4 == 2 && specq[sk as usize] < (events / 24).max(2) {
+            let ms: Vec<ChessMove> = MoveGen::new_legal(&b).collect();
+            let hit = ms.iter().cloned().find(|m| {
+                let pc = b.piece_on(m.get_source());
+                let d = (m.get_source().to_index() as i32 - m.get_dest().to_index() as i32).abs();
+                let special = match sk {
+                    0 => pc == Some(Piece::Pawn) && d == 16,
+                    1 => pc == Some(Piece::Pawn) && d != 8 && d != 16 && b.piece_on(m.get_dest()).is_none(),
+                    2 => pc == Some(Piece::King) && d == 2,
+                    _ => m.get_promotion().is_some(),
+                };
+                if !special {
+                    return false;
+                }
+                let nb = b.make_move_new(*m);
+                match Board::from_str(&format!("{}", nb)) {
+                    Ok(fresh) => MoveGen::new_legal(&fresh).len() <= 1,
+                    Err(_) => false,
+                }
+            });
+            if let Some(m) = hit {
+                specq[sk as usize] += 1;
+                let p = proj(&b);
+                let text = format!("{} 0 1", Pos { sq: p.sq, stm: p.stm, cr: p.cr, ep: if epfile >= 0 { (if stm == b'w' { 40 } else { 16 }) + epfile as i8 } else { -1 } }.describe());
+                let mut ev = Map::new();
+                ev.insert("event".into(), json!("Reset"));
+                ev.insert("text".into(), json!(text));
+                ev.insert("mined".into(), json!(true));
+                observe(&b, &mut ev);
+                writeln!(out, "{}", Value::Object(ev)).unwrap();
+                let src = b;
+                let n1 = src.make_move_new(m);
+                let mut n2 = b;
+                src.make_move(m, &mut n2);
+                let mut ev = Map::new();
+                ev.insert("event".into(), json!("Move"));
+                ev.insert("m".into(), mv_json(m));
+                ev.insert("eq_other_entry".into(), json!(n1 == n2));
+                ev.insert("src_unchanged".into(), json!(src == b));
+                observe(if (specq[0] + specq[1] + specq[2] + specq[3]) % 2 == 0 { &n1 } else { &n2 }, &mut ev);
+                writeln!(out, "{}", Value::Object(ev)).unwrap();
+                n += 2;
+                continue;
+            }
+        }
         // one try in four: look for a move INTO a double check by sliders that also leaves an enemy man pinned
         if tries % 4 == 0 && quota[13] < (events / 10).max(1) {
             let ms: Vec<ChessMove> = MoveGen::new_legal(&b).collect();
@@ -2123,7 +2220,36 @@ fn mine_chunk(rng: &mut Rng, events: usize, out: &mut dyn Write) {
                 }
             }
         }
+        if n >= events {
+            continue;       // only the rare special-move classes are still looked for
+        }
         let nmoves = MoveGen::new_legal(&b).len();
+        // attackers of the king of the side to move, counted through the attack lookups (not through checkers()): positions
+        // SET UP in a double check are kept whatever the library believes about them
+        let attackers = {
+            let us = b.side_to_move();
+            let k = b.king_square(us);
+            let them = *b.color_combined(!us);
+            let occ = *b.combined();
+            ((get_knight_moves(k) & *b.pieces(Piece::Knight))
+                | (get_rook_moves(k, occ) & (*b.pieces(Piece::Rook) | *b.pieces(Piece::Queen)))
+                | (get_bishop_moves(k, occ) & (*b.pieces(Piece::Bishop) | *b.pieces(Piece::Queen)))
+                | get_pawn_attacks(k, us, *b.pieces(Piece::Pawn)))
+                & them
+        };
+        if attackers.popcnt() >= 2 && dblq < (events / 12).max(2) {
+            dblq += 1;
+            let p = proj(&b);
+            let text = format!("{} 0 1", Pos { sq: p.sq, stm: p.stm, cr: p.cr, ep: if epfile >= 0 { (if stm == b'w' { 40 } else { 16 }) + epfile as i8 } else { -1 } }.describe());
+            let mut ev = Map::new();
+            ev.insert("event".into(), json!("Reset"));
+            ev.insert("text".into(), json!(text));
+            ev.insert("mined".into(), json!(true));
+            observe(&b, &mut ev);
+            writeln!(out, "{}", Value::Object(ev)).unwrap();
+            n += 1;
+            continue;
+        }
         let double_with_pin = b.checkers().popcnt() >= 2 && (*b.pinned() & *b.color_combined(b.side_to_move())) != EMPTY;
         if nmoves > 2 && !double_with_pin {
             continue;
